@@ -10,7 +10,7 @@ import pipe
 from core import Failure, correspond
 
 LEVEL = "proof"
-CONTAINERS = ["", ".gz", ".bz2", ".xz"]
+CONTAINERS = ["", ".gz", ".bz2", ".xz", ".zst"]
 NAMES = ["fasta", "fa", "fastq", "fq", "out"]
 
 
@@ -142,12 +142,35 @@ def run(ctx):
         ctx.count(f"layout:{layout}")
         ctx.count(f"cores:{cores}")
         ctx.sample(cell)
-    # --fasta on standard output is covered by the model op only (stdout capture of worker processes is not portable here)
-    for name in NAMES:
-        for outc in CONTAINERS + [".zst"]:
-            for q in (0, 1):
-                for prox in (0, 1):
-                    pass
+    # standard output: `--fasta` forces FASTA, otherwise the input format; single-end and interleaved, one core and two
+    import os
+    import subprocess
+    import sys
+    import tempfile
+    bdir = [p_ for p_ in sys.path if os.path.isdir(os.path.join(p_, "cutadapt")) and "cutadapt-verif" in p_][0]
+    with tempfile.TemporaryDirectory(dir="/var/tmp") as d:
+        r1, r2 = pipe.gen_reads(rng, 4, [], [], True)
+        open(os.path.join(d, "s.fastq"), "w").write(clirun.fastq(r1))
+        open(os.path.join(d, "i.fastq"), "w").write(clirun.fastq([r for p_ in zip(r1, r2) for r in p_]))
+        open(os.path.join(d, "s.fasta"), "w").write(clirun.fasta(r1))
+        for layout, inp in (("single", "s.fastq"), ("interleaved", "i.fastq"), ("single", "s.fasta")):
+            for ff in (False, True):
+                for cores in (1, 2):
+                    argv = [sys.executable, "-m", "cutadapt", "-j", str(cores)] + (["--interleaved"] if layout == "interleaved" else []) + \
+                           (["--fasta"] if ff else []) + [os.path.join(d, inp)]
+                    r = subprocess.run(argv, capture_output=True, text=True, env=dict(os.environ, PYTHONPATH=bdir), timeout=120)
+                    ctx.evaluations += 1
+                    cell = dict(stdout=True, layout=layout, input=inp, fasta_flag=ff, cores=cores)
+                    if r.returncode != 0:
+                        ctx.failures.append(Failure("C19/run-failed", "cutadapt failed writing to standard output", cell, r.stderr[-200:], 0))
+                        continue
+                    gotf = fmt_of(r.stdout)
+                    expf = "fasta" if (ff or inp.endswith(".fasta")) else "fastq"
+                    corr.append((f"outfmt - {int(ff)} {int(inp.endswith('.fastq'))} {int(cores > 1)}", gotf))
+                    if gotf != expf:
+                        ctx.failures.append(Failure("C19/stdout-format", "--fasta (or the input format) does not determine the format on standard output",
+                                                    cell, gotf, expf))
+                    ctx.count("stdout-cases")
     correspond(ctx, "outfmt", corr)
 
 
